@@ -269,7 +269,18 @@ pub fn run_adversarial(cfg: &Value) -> Value {
         let rounds = mc["rounds"].as_u64().unwrap() as usize;
         let sx = mc["x"].as_u64().unwrap_or(x as u64) as usize;
         let sn = mc["n"].as_u64().unwrap_or(n as u64) as usize;
-        let pc_gens = ristretto::create_pedersen_gens_with_extension_degree(ext_degree(sx));
+        let mut pc_gens = ristretto::create_pedersen_gens_with_extension_degree(ext_degree(sx));
+        let mut gen_ids = Value::Null;
+        if mc["free_gens"].as_bool().unwrap_or(false) {
+            // caller-chosen commitment generators: free points, so that they are data of the scenario
+            pc_gens.h_base = env::free_point(&format!("Hgen_{}", i));
+            pc_gens.h_base_compressed = pc_gens.h_base.compress();
+            for k in 0..sx {
+                pc_gens.g_base_vec[k] = env::free_point(&format!("Ggen_{}_{}", i, k));
+                pc_gens.g_base_compressed_vec[k] = pc_gens.g_base_vec[k].compress();
+            }
+            gen_ids = json!({"h": env::point_id(&pc_gens.h_base), "g": pc_gens.g_base_vec.iter().map(env::point_id).collect::<Vec<_>>()});
+        }
         let params = RangeParameters::init(sn, cap, pc_gens).expect("params");
         let commitments: Vec<RistrettoPoint> = (0..m).map(|j| env::free_point(&format!("V_{}_{}", i, j))).collect();
         let mut promises = Vec::new();
@@ -355,7 +366,19 @@ pub fn run_adversarial(cfg: &Value) -> Value {
             Err(_) => return json!({"members": infos, "verify": Value::Null}),
         }
         statements.push(st);
-        transcripts.push(Transcript::new(b"symx context"));
+        let mut t = Transcript::new(b"symx context");
+        if mc["ctx_elem"].as_bool().unwrap_or(false) {
+            // caller-supplied transcript state: an opaque message absorbed before the transcript is handed over
+            let (b, id) = env::new_elem(false, &format!("ctx_{}", i));
+            t.append_message(b"caller-context", &b);
+            if let Some(last) = infos.last_mut() {
+                last["ctx_elem"] = id;
+            }
+        }
+        if let Some(last) = infos.last_mut() {
+            last["gens"] = gen_ids;
+        }
+        transcripts.push(t);
     }
     env::set_forced(&cfg["forced"]);
     let verify_out = run_verify(cfg, &transcripts, &statements, &proofs);
